@@ -330,9 +330,15 @@ def decOracle (c : Codec) (bytes : Bytes) (impl : String) : List String :=
   let vals := oks.map fun s => s.1.bind build
   let check (want : List Val) (lastWant : String) : List String :=
     if oks.length != want.length then
-      [s!"C18 {c.name}-decoder-wrong-number-of-values want={want.length} got={oks.length} last={last.getD "none"}"]
+      [s!"C18 {c.name}-decoder-wrong-number-of-values want={want.length} got={oks.length} last={last.getD "none"}"] ++
+        -- the first document was delivered, a later one not: the decoder that has processed
+        -- documents does not do what a new decoder does on the rest of the stream (C17)
+        (if 0 < oks.length && oks.length < want.length then
+           [s!"C17 {c.name}-decoder-stops-after-{oks.length}-of-{want.length}-documents last={last.getD "none"}"] else [])
     else if !(List.zip want vals).all (fun (w, g) => match g with | some g => c.approx "" w g | none => false) then
-      [s!"C18 {c.name}-decoder-value-not-one-per-Next"]
+      [s!"C18 {c.name}-decoder-value-not-one-per-Next"] ++
+        (if (match want.head?, vals.head? with | some w, some (some g) => c.approx "" w g | _, _ => false) then
+           [s!"C17 {c.name}-decoder-reports-a-later-document-differently-from-the-first"] else [])
     else if last != some lastWant then
       [s!"C18 {c.name}-decoder-end-of-stream-reported-as-{last.getD "none"}-instead-of-{lastWant}"]
     else []
